@@ -47,7 +47,7 @@ import (
 
 func c20cases(tier string) int {
 	if tier == "thorough" {
-		return 800
+		return 250
 	}
 	return 32
 }
@@ -976,10 +976,11 @@ func init() {
 			"variable-length targets: the selected rows keep their time up to the target's tick resolution (interval/2^32, +3ns) rather than being truncated; targets never receive a row on Jan 1 of a 1D bucket (F-JAN1, C08)",
 			"DataService.Create stamps the new bucket with the current year (wall clock) - not part of any verdict",
 		},
-		Cases:       c20cases,
-		Batch:       4,
-		Run:         c20run,
-		Need:        []string{"statements", "rows_compared", "projection_statements", "limit_statements", "insert_statements", "limit_metamorphic_comparisons"},
-		MinDistinct: 20,
+		Cases:        c20cases,
+		Batch:        4,
+		BatchTimeout: 30 * time.Minute,
+		Run:          c20run,
+		Need:         []string{"statements", "rows_compared", "projection_statements", "limit_statements", "insert_statements", "limit_metamorphic_comparisons"},
+		MinDistinct:  20,
 	})
 }
